@@ -8,6 +8,7 @@ From NB Require Import Diff.Codec.
 From NB Require Import Gen.ConfigClasses.
 From NB Require Import Sys.Config.
 From NB Require Import Sys.ConfigProofs.
+From NB Require Import Sys.ConfigDeviations.   (* part of the block to swap *)
 Import ListNotations.
 
 (* For every entry point, every option its sections can set, every well-formed assignment of values to options of
@@ -36,6 +37,9 @@ Theorem server_port_refuted :
     <> Ok (spec_effective (of_ascii "server") files [] (of_ascii "port")).
 Proof. exact server_port_refuted_lemma. Qed.
 Print Assumptions server_port_refuted.
+Theorem global_section_never_participates : forall cn, participates kGlobal cn = false.
+Proof. exact global_never_participates. Qed.
+Print Assumptions global_section_never_participates.
 (* ---- END block ---- *)
 
 (* the working-directory file masks, key by key, whatever files of lower priority say *)
@@ -62,6 +66,3 @@ Theorem documented_sections_participate :
 Proof. exact documented_sections_participate_lemma. Qed.
 Print Assumptions documented_sections_participate.
 
-Theorem global_section_never_participates : forall cn, participates kGlobal cn = false.
-Proof. exact global_never_participates. Qed.
-Print Assumptions global_section_never_participates.
